@@ -1,7 +1,11 @@
 package checks
 
 import (
+	"sync/atomic"
+
+	"bytes"
 	"encoding/json"
+	"github.com/dtn7/dtn7-go/verif/vrt"
 	"os"
 	"sync"
 	"time"
@@ -37,11 +41,16 @@ func c05Bundles() []nhBundle {
 	aged.Src, aged.Rpt = "dtn://node/app2", "dtn://node/app2"                          // another endpoint of this node: no ID clash with b0
 	aged.Ext = []gen.BSpec{{Kind: "age", N: []uint64{3000000}, Flags: ref.BReplicate}} // has a clock AND a consistent age block:
 	aged.Time = DtnNow() - 3000000                                                     // created 50 minutes before the scenario starts
+	// two more clock-less bundles of the same source (same ID up to the sequence number the node assigns)
+	zero2, zero3 := zero, zero
+	zero2.PaySeed, zero3.PaySeed = 5, 6
 	return []nhBundle{
 		{Spec: base, Local: true, Dest: "dest"},
 		{Spec: zero, Local: true, Dest: "dest", ZeroTime: true},
 		{Spec: foreign, Local: false, Dest: "dest"},
 		{Spec: aged, Local: true, Dest: "dest"},
+		{Spec: zero2, Local: true, Dest: "dest", ZeroTime: true},
+		{Spec: zero3, Local: true, Dest: "dest", ZeroTime: true},
 	}
 }
 
@@ -55,7 +64,7 @@ func c05Def() nhCheckDef {
 
 func c05Alphabet() []nhEvent {
 	return []nhEvent{
-		{Op: "submit", B: 0}, {Op: "agent", B: 0}, {Op: "submit", B: 1}, {Op: "submit", B: 3}, {Op: "receive", B: 2, P: "r1", Q: "r1"},
+		{Op: "submit", B: 0}, {Op: "agent", B: 0}, {Op: "submit", B: 1}, {Op: "submit", B: 3}, {Op: "submit", B: 4}, {Op: "submit", B: 5}, {Op: "receive", B: 2, P: "r1", Q: "r1"},
 		{Op: "up", P: "dest"}, {Op: "up", P: "r1"}, {Op: "up", P: "r2"},
 		{Op: "down", P: "dest"}, {Op: "down", P: "r1"},
 		{Op: "fail", P: "dest"}, {Op: "ok", P: "dest"}, {Op: "fail", P: "r1"}, {Op: "fail", P: "r2"}, {Op: "ok", P: "r2"},
@@ -83,6 +92,16 @@ func c05Oracle(r *nhRun) (string, string) {
 			if !si.Known {
 				k := "accepted-bundle-lost:" + kind + ":after-" + e.Op
 				return k, fmt.Sprintf("%s (%s, %s) was accepted, is unexpired and was never transmitted successfully, but the store no longer knows it", name, kind, r.idString(i))
+			}
+			// the record filed under the bundle's ID must be this bundle (a second bundle given an ID that is
+			// already on file is ignored by the store: it is lost although "its" ID is known)
+			if bi, qerr := r.n.core.VerifStore().QueryId(t.ID); qerr == nil && len(bi.Parts) == 1 && !bi.Fragmented {
+				if sb, lerr := bi.Parts[0].Load(); lerr == nil {
+					want := gen.Payload(int(r.sc.Bundles[i].Spec.PayLen), r.sc.Bundles[i].Spec.PaySeed)
+					if !bytes.Equal(payloadOf(&sb), want) {
+						return "accepted-bundle-lost:" + kind + ":id-taken-by-another-bundle:after-" + e.Op, fmt.Sprintf("%s (%s) was accepted and never transmitted successfully; the store record under its ID %s holds a different bundle (payload %x, this bundle's payload is %x): it was never filed", name, kind, r.idString(i), payloadOf(&sb), want)
+					}
+				}
 			}
 			if !si.Pending {
 				return "accepted-bundle-not-pending:" + kind + ":after-" + e.Op, fmt.Sprintf("%s is stored but not marked for retry (constraints %v)", name, si.Cons)
@@ -135,6 +154,8 @@ func runC05(r *ev.Run, thorough bool) int {
 		nil,
 		{{Op: "up", P: "r1"}, {Op: "up", P: "r2"}, {Op: "fail", P: "r1"}},
 		{{Op: "up", P: "dest"}, {Op: "fail", P: "dest"}, {Op: "up", P: "r1"}},
+		// two clock-less bundles of one source wait in the store across a restart (the ID bookkeeping starts afresh)
+		{{Op: "submit", B: 1}, {Op: "submit", B: 4}, {Op: "restart"}},
 	}
 	for si := range def.Scenarios {
 		for ri, root := range roots {
@@ -147,6 +168,9 @@ func runC05(r *ev.Run, thorough bool) int {
 				}
 				if si == 0 && ri == 1 {
 					d = depth + 1
+				}
+				if ri == 3 {
+					d = depth - 1
 				}
 			}
 			per := nhBFSStats{}
@@ -239,7 +263,13 @@ func c05WireWorker(task []byte) []byte {
 	if err != nil {
 		return mustJSON(c05WireOut{Key: "harness", Desc: err.Error()})
 	}
-	defer n.destroy()
+	// cron jobs run in goroutines of their own: before the node is closed they must have finished (the number of
+	// goroutines started by the node returns to what its long-lived loops account for)
+	base := int64(1 << 40)
+	defer func() {
+		waitFor(func() bool { return atomic.LoadInt64(&vrt.Transient) <= base })
+		n.destroy()
+	}()
 	b := gen.Spec{Dst: "dtn://dest/x", Src: "dtn://node/app", Rpt: "dtn://node/app", PCRC: 2, Time: DtnNow(), Lifetime: 3600000, PayLen: 6, PaySeed: 1}.Build()
 	n.setOutcome("dest", false)
 	n.submit(b)
@@ -253,6 +283,8 @@ func c05WireWorker(task []byte) []byte {
 		n.core.RegisterConvergable(pp) // connected again, no appearance event: only the periodic job can retry
 	}
 	n.setOutcome("dest", true)
+	n.flush()
+	base = atomic.LoadInt64(&vrt.Transient) // quiescent: only the node's long-lived loops are running
 	before := n.nSends()
 	// no event from now on: only the periodic job can transmit the bundle. Its interval is 10 s; tick the virtual
 	// clock second by second (the cron loop's ticker is handed every tick); any retry within a minute is accepted.
